@@ -458,24 +458,11 @@ func (w *World) ruleRefOrdinal(r *Report, rule string) {
 	// with the int codec and nothing else
 	okBody, tagOK := w.refWriterBody(wr)
 	r.add(rule, "(*Encoder).writeRef · x51 then int(ordinal)", w.pos(wr.Pos()), okBody && tagOK, fmt.Sprintf("tag x51 written=%v, ordinal parameter written with the int codec=%v", tagOK, okBody))
-	// the registrar returns the stored ordinal on a hit
-	fr := w.flow(reg)
-	hit := false
-	for _, b := range reg.Blocks {
-		ret, isRet := b.Instrs[len(b.Instrs)-1].(*ssa.Return)
-		if !isRet {
-			continue
-		}
-		if ex, isEx := ret.Results[0].(*ssa.Extract); isEx && ex.Index == 0 {
-			if lk, isLk := ex.Tuple.(*ssa.Lookup); isLk {
-				if o, _, okf := w.fieldOfLoad(lk.X); okf && o == "Encoder" {
-					hit = true
-				}
-			}
-		}
-		_ = fr
-	}
-	r.add(rule, fnName(reg)+" · a hit returns the stored ordinal", w.pos(reg.Pos()), hit, "on a hit the value looked up in the ref table is returned")
+	// the registrar returns the stored ordinal on a hit: read from the registrar's paths
+	// (rules_registrar_px.go), so the lookup may sit in an accessor and the results may be
+	// named and joined in one return
+	hit, hitFact := w.registrarHitReturnsStored()
+	r.add(rule, fnName(reg)+" · a hit returns the stored ordinal", w.pos(reg.Pos()), hit, hitFact)
 	w.ruleRefKeyPins(r, rule)
 	r.floor(rule, n, 3)
 }
